@@ -1,4 +1,313 @@
-//! End-to-end scenarios of the whole public `Server` (thorough tier). Filled in below.
-pub fn run(_line: &str) -> String {
-    "TODO".into()
+//! End-to-end scenarios of the whole `Server` through the public API (real threads, real time).
+//! One scenario name per line -> "ok ..." or "FAIL <what>".  All bounds are generous (a bound that
+//! must NOT be reached is a pure safety check, independent of load; a bound that must be reached is
+//! 30 s for something that takes milliseconds to ~1 s).
+use std::{
+    io::{BufRead, BufReader, Read},
+    net::TcpListener,
+    process::{Command, Stdio},
+    time::{Duration, Instant},
+};
+
+use actix_rt::net::TcpStream;
+use actix_server::{Server, ServerHandle};
+use actix_service::fn_service;
+use tokio::io::{AsyncReadExt, AsyncWriteExt};
+
+const BOUND: Duration = Duration::from_secs(30);
+
+fn build(workers: usize, shutdown_timeout: u64, signals: bool) -> (Server, std::net::SocketAddr) {
+    let lst = TcpListener::bind("127.0.0.1:0").unwrap();
+    let addr = lst.local_addr().unwrap();
+    let mut b = Server::build().workers(workers).shutdown_timeout(shutdown_timeout);
+    if !signals {
+        b = b.disable_signals();
+    }
+    let srv = b
+        .listen("held", lst, || {
+            fn_service(|mut stream: TcpStream| async move {
+                // tell the client the connection is in progress, then hold it until the peer closes
+                let _ = stream.write_all(b"h").await;
+                let mut buf = [0u8; 16];
+                loop {
+                    match stream.read(&mut buf).await {
+                        Ok(0) | Err(_) => break,
+                        Ok(_) => {}
+                    }
+                }
+                Ok::<_, ()>(())
+            })
+        })
+        .unwrap()
+        .run();
+    (srv, addr)
+}
+
+/// connect and wait until the service has the connection
+async fn held_conn(addr: std::net::SocketAddr) -> Result<TcpStream, String> {
+    let mut c = tokio::time::timeout(BOUND, TcpStream::connect(addr))
+        .await
+        .map_err(|_| "connect timed out".to_string())?
+        .map_err(|e| format!("connect: {e}"))?;
+    let mut b = [0u8; 1];
+    tokio::time::timeout(BOUND, c.read_exact(&mut b))
+        .await
+        .map_err(|_| "service did not take the connection".to_string())?
+        .map_err(|e| format!("read: {e}"))?;
+    Ok(c)
+}
+
+/// the peer observes the connection closed (EOF or reset) within the bound
+async fn sees_close(c: &mut TcpStream) -> bool {
+    let mut b = [0u8; 8];
+    matches!(
+        tokio::time::timeout(BOUND, c.read(&mut b)).await,
+        Ok(Ok(0)) | Ok(Err(_))
+    )
+}
+
+async fn within<F: std::future::Future>(f: F) -> Result<F::Output, String> {
+    tokio::time::timeout(BOUND, f).await.map_err(|_| "not resolved within 30 s".to_string())
+}
+
+fn is_done<T>(h: &mut tokio::task::JoinHandle<T>) -> bool {
+    h.is_finished()
+}
+
+async fn scenario(name: &str) -> Result<String, String> {
+    match name {
+        // forced stop with a connection held open: completes without waiting for it
+        "forced_held" => {
+            let (srv, addr) = build(1, 30, false);
+            let h: ServerHandle = srv.handle();
+            let mut st = actix_rt::spawn(srv);
+            let mut c = held_conn(addr).await?;
+            let t0 = Instant::now();
+            within(h.stop(false)).await.map_err(|e| format!("stop(false): {e}"))?;
+            let ms = t0.elapsed().as_millis();
+            within(&mut st).await.map_err(|e| format!("Server future: {e}"))?.ok();
+            if !sees_close(&mut c).await {
+                return Err("held connection not closed by the teardown".into());
+            }
+            Ok(format!("stop_ms={ms}"))
+        }
+        // graceful stop waits for the connection in progress, completes once it finished
+        "graceful_held" | "two_workers_graceful" => {
+            let two = name == "two_workers_graceful";
+            let (srv, addr) = build(if two { 2 } else { 1 }, 30, false);
+            let h = srv.handle();
+            let mut st = actix_rt::spawn(srv);
+            let c1 = held_conn(addr).await?;
+            let c2 = if two { Some(held_conn(addr).await?) } else { None };
+            let mut sf = actix_rt::spawn(h.stop(true));
+            tokio::time::sleep(Duration::from_millis(1500)).await;
+            if is_done(&mut sf) || is_done(&mut st) {
+                return Err("graceful stop completed while a connection was in progress".into());
+            }
+            drop(c1);
+            if let Some(c2) = c2 {
+                tokio::time::sleep(Duration::from_millis(1500)).await;
+                if is_done(&mut sf) || is_done(&mut st) {
+                    return Err("graceful stop completed while the second worker's connection was in progress".into());
+                }
+                drop(c2);
+            }
+            let t0 = Instant::now();
+            within(&mut sf).await.map_err(|e| format!("stop(true) after release: {e}"))?.ok();
+            within(&mut st).await.map_err(|e| format!("Server future: {e}"))?.ok();
+            Ok(format!("after_release_ms={}", t0.elapsed().as_millis()))
+        }
+        // shutdown_timeout reached with the connection still held
+        "graceful_timeout" => {
+            let (srv, addr) = build(1, 1, false);
+            let h = srv.handle();
+            let mut st = actix_rt::spawn(srv);
+            let mut c = held_conn(addr).await?;
+            let t0 = Instant::now();
+            within(h.stop(true)).await.map_err(|e| format!("stop(true): {e}"))?;
+            let ms = t0.elapsed().as_millis();
+            if ms < 900 {
+                return Err(format!("graceful stop completed after {ms} ms, before shutdown_timeout (1 s), connection still in progress"));
+            }
+            within(&mut st).await.map_err(|e| format!("Server future: {e}"))?.ok();
+            if !sees_close(&mut c).await {
+                return Err("held connection not closed after the timeout".into());
+            }
+            Ok(format!("stop_ms={ms}"))
+        }
+        "stop_twice_forced" => {
+            let (srv, addr) = build(1, 30, false);
+            let h = srv.handle();
+            let mut st = actix_rt::spawn(srv);
+            let _c = held_conn(addr).await?;
+            let f1 = h.stop(false);
+            let f2 = h.stop(false);
+            within(f1).await.map_err(|e| format!("first stop: {e}"))?;
+            within(f2).await.map_err(|e| format!("second stop: {e}"))?;
+            within(&mut st).await.map_err(|e| format!("Server future: {e}"))?.ok();
+            Ok(String::new())
+        }
+        "stop_twice_graceful" => {
+            let (srv, addr) = build(1, 30, false);
+            let h = srv.handle();
+            let mut st = actix_rt::spawn(srv);
+            let c = held_conn(addr).await?;
+            let mut f1 = actix_rt::spawn(h.stop(true));
+            tokio::time::sleep(Duration::from_millis(200)).await;
+            let mut f2 = actix_rt::spawn(h.stop(true));
+            tokio::time::sleep(Duration::from_millis(1300)).await;
+            if is_done(&mut f1) || is_done(&mut f2) || is_done(&mut st) {
+                return Err("a graceful stop completed while a connection was in progress".into());
+            }
+            drop(c);
+            within(&mut f1).await.map_err(|e| format!("first stop: {e}"))?.ok();
+            within(&mut f2).await.map_err(|e| format!("second stop: {e}"))?.ok();
+            within(&mut st).await.map_err(|e| format!("Server future: {e}"))?.ok();
+            Ok(String::new())
+        }
+        // the stop future is dropped without ever being polled: the command was sent eagerly
+        "stop_dropped_unpolled" => {
+            let (srv, addr) = build(1, 30, false);
+            let h = srv.handle();
+            let mut st = actix_rt::spawn(srv);
+            let mut c = held_conn(addr).await?;
+            drop(h.stop(false));
+            within(&mut st).await.map_err(|e| format!("Server future: {e}"))?.ok();
+            if !sees_close(&mut c).await {
+                return Err("held connection not closed".into());
+            }
+            Ok(String::new())
+        }
+        "idle_graceful" => {
+            let (srv, _addr) = build(2, 30, false);
+            let h = srv.handle();
+            let mut st = actix_rt::spawn(srv);
+            tokio::time::sleep(Duration::from_millis(50)).await;
+            let t0 = Instant::now();
+            within(h.stop(true)).await.map_err(|e| format!("stop(true): {e}"))?;
+            let ms = t0.elapsed().as_millis();
+            within(&mut st).await.map_err(|e| format!("Server future: {e}"))?.ok();
+            Ok(format!("stop_ms={ms}"))
+        }
+        "stop_after_done" => {
+            let (srv, _addr) = build(1, 30, false);
+            let h = srv.handle();
+            let mut st = actix_rt::spawn(srv);
+            within(h.stop(false)).await.map_err(|e| format!("stop(false): {e}"))?;
+            within(&mut st).await.map_err(|e| format!("Server future: {e}"))?.ok();
+            within(h.stop(true)).await.map_err(|e| format!("stop after the server is gone: {e}"))?;
+            within(h.stop(false)).await.map_err(|e| format!("stop after the server is gone: {e}"))?;
+            Ok(String::new())
+        }
+        "stop_while_paused" => {
+            let (srv, addr) = build(1, 30, false);
+            let h = srv.handle();
+            let mut st = actix_rt::spawn(srv);
+            let c = held_conn(addr).await?;
+            within(h.pause()).await.map_err(|e| format!("pause: {e}"))?;
+            let mut sf = actix_rt::spawn(h.stop(true));
+            tokio::time::sleep(Duration::from_millis(1300)).await;
+            if is_done(&mut sf) || is_done(&mut st) {
+                return Err("graceful stop (while paused) completed while a connection was in progress".into());
+            }
+            drop(c);
+            within(&mut sf).await.map_err(|e| format!("stop while paused: {e}"))?.ok();
+            within(&mut st).await.map_err(|e| format!("Server future: {e}"))?.ok();
+            Ok(String::new())
+        }
+        _ => Err(format!("unknown scenario {name}")),
+    }
+}
+
+/// child process for the signal scenarios: a server with OS signals enabled
+pub fn child() {
+    let sys = actix_rt::System::new();
+    sys.block_on(async {
+        let (srv, addr) = build(1, 30, true);
+        println!("READY {}", addr.port());
+        let _ = srv.await;
+    });
+    println!("SERVER_DONE");
+}
+
+fn signal_scenario(name: &str) -> Result<String, String> {
+    let (sig, held, graceful) = match name {
+        "signal_int" => (libc::SIGINT, true, false),
+        "signal_quit" => (libc::SIGQUIT, true, false),
+        "signal_term" => (libc::SIGTERM, false, true),
+        "signal_term_held" => (libc::SIGTERM, true, true),
+        _ => return Err("unknown".into()),
+    };
+    let exe = std::env::current_exe().map_err(|e| e.to_string())?;
+    let mut ch = Command::new(exe)
+        .arg("e2e_child")
+        .stdout(Stdio::piped())
+        .stderr(Stdio::null())
+        .spawn()
+        .map_err(|e| e.to_string())?;
+    let mut out = BufReader::new(ch.stdout.take().unwrap());
+    let mut line = String::new();
+    out.read_line(&mut line).map_err(|e| e.to_string())?;
+    let port: u16 = line
+        .trim()
+        .strip_prefix("READY ")
+        .and_then(|p| p.parse().ok())
+        .ok_or_else(|| format!("child said {line:?}"))?;
+    let res = (|| {
+        let mut conn = None;
+        if held {
+            let mut c = std::net::TcpStream::connect(("127.0.0.1", port)).map_err(|e| e.to_string())?;
+            c.set_read_timeout(Some(BOUND)).ok();
+            let mut b = [0u8; 1];
+            c.read_exact(&mut b).map_err(|e| format!("service did not take the connection: {e}"))?;
+            conn = Some(c);
+        }
+        // give the child's signal handlers (installed when the Server future is first polled) a moment
+        std::thread::sleep(Duration::from_millis(300));
+        let t0 = Instant::now();
+        // SAFETY: plain kill(2) on our own child
+        unsafe { libc::kill(ch.id() as i32, sig) };
+        if graceful && held {
+            std::thread::sleep(Duration::from_millis(1800));
+            if ch.try_wait().map_err(|e| e.to_string())?.is_some() {
+                return Err("SIGTERM: the process exited while a connection was in progress".to_string());
+            }
+            drop(conn.take());
+        }
+        let deadline = Instant::now() + BOUND;
+        loop {
+            if let Some(st) = ch.try_wait().map_err(|e| e.to_string())? {
+                let mut rest = String::new();
+                let _ = out.read_to_string(&mut rest);
+                if !rest.contains("SERVER_DONE") {
+                    return Err(format!("child exited ({st}) without the Server future resolving"));
+                }
+                return Ok(format!("exit_ms={}", t0.elapsed().as_millis()));
+            }
+            if Instant::now() > deadline {
+                return Err("child did not exit within 30 s of the signal".to_string());
+            }
+            std::thread::sleep(Duration::from_millis(20));
+        }
+    })();
+    let _ = ch.kill();
+    let _ = ch.wait();
+    res
+}
+
+pub fn run(line: &str) -> String {
+    let name = line.trim();
+    let r = if name.starts_with("signal_") {
+        signal_scenario(name)
+    } else {
+        let name = name.to_string();
+        // own thread + own System per scenario
+        std::thread::spawn(move || actix_rt::System::new().block_on(scenario(&name)))
+            .join()
+            .unwrap_or_else(|_| Err("scenario panicked".into()))
+    };
+    match r {
+        Ok(s) => format!("ok {s}").trim_end().to_string(),
+        Err(e) => format!("FAIL {e}"),
+    }
 }
